@@ -1,11 +1,12 @@
 (* Properties/C16.v -- diagrams draw the quantities their definitions prescribe.
    PARTIAL.  Model/Diagrams.v holds executable models of the defining statistics of: -hist, -sort,
    obsfcst (lines and shaded bands), qq, scatter points, change, cond, reliability, discrimination, roc,
-   pithist, spreadskill and timeseries lines; standard line plots are compared with the -type csv table
+   pithist, spreadskill, freq, marginal, error, taylor, performance and timeseries lines; standard line plots
+   (also with -acc) are compared with the -type csv table
    that C12 ties to the Data model.  ./check C16 reads the coordinates back from the matplotlib
    artists and compares them with these models (vm_compute, float instance) on the arrays the real
-   Data object delivers.  Not modelled: droc, performance, taylor, error, murphy, economicvalue,
-   bsdecomp, igncontrib, fss, autocorr/autocov, against, freq, marginal, invreliability, meteo, maps,
+   Data object delivers.  Not modelled: droc, murphy, economicvalue,
+   bsdecomp, igncontrib, fss, autocorr/autocov, against, invreliability, meteo, maps,
    rank and impact views, the quantile lines of scatter.
    The theorems below are about the BINNING rules of the model (Model/Diagrams.member), for all
    strictly increasing edges and all values: "every valid case falls in exactly one bin". *)
